@@ -3,11 +3,13 @@
 // sequences for the larger instantiations + exhaustive / lattice checks of the double-word helpers.
 #include "vx_ledger.hpp"
 #include "vx_main.hpp"
+#include "seqx.hpp"
 #include "bigref.hpp"
 #include "BigInt.hpp"
 #include "DigitUtils.hpp"
 #include <unordered_set>
 #include <deque>
+#include <utility>
 
 using namespace Qentem;
 using u128 = unsigned __int128;
@@ -43,30 +45,26 @@ struct Inst {
         k += char(p->Index());
         return k;
     }
-    // comparison with the reference; returns "" or the difference
+    // comparison with the reference through the public read API; returns "" or the difference.
+    // Words above Index() are not part of the value and are not compared (they are part of the state key, so a
+    // later operation that trusts them is found by the search).
     std::string diff(const ref::Big &r) const {
         char b[200];
+        const unsigned idx = p->Index();
+        if (idx >= WORDS) {
+            snprintf(b, sizeof b, "Index() is %u, outside the %u words", idx, WORDS);
+            return b;
+        }
         for (unsigned i = 0; i < WORDS; i++) {
-            if ((uint64_t)p->Storage()[i] != r.word(i, WB)) {
-                snprintf(b, sizeof b, "word %u is %llx, exact value 0x%s", i, (unsigned long long)p->Storage()[i], r.hex().c_str());
+            uint64_t have = (i <= idx) ? (uint64_t)p->Storage()[i] : 0;
+            if (have != r.word(i, WB)) {
+                snprintf(b, sizeof b, "word %u of the value (Index %u) is %llx, exact value 0x%s", i, idx, (unsigned long long)have, r.hex().c_str());
                 return b;
             }
         }
-        unsigned top = 0;
-        for (unsigned i = 0; i < WORDS; i++) {
-            if (p->Storage()[i] != 0) {
-                top = i;
-            }
-        }
-        if (p->Index() != top) {
-            snprintf(b, sizeof b, "Index() is %u but the highest non-zero word is %u (value 0x%s)", (unsigned)p->Index(), top, r.hex().c_str());
-            return b;
-        }
         if (p->IsZero() != r.is_zero() || p->NotZero() == r.is_zero()) {
-            return "IsZero/NotZero disagree with the value 0x" + r.hex();
-        }
-        if (p->IsBig() != (top != 0)) {
-            return "IsBig disagrees with the value 0x" + r.hex();
+            snprintf(b, sizeof b, "IsZero() is %d for the value 0x%s (Index %u)", (int)p->IsZero(), r.hex().c_str(), idx);
+            return b;
         }
         if ((uint64_t)p->Number() != r.word(0, WB)) {
             return "Number() is not the low word";
@@ -249,6 +247,15 @@ static bool apply(Inst<W, Width> &x, ref::Big &r, const Op &op, std::string &err
             *x.p |= (uint64_t)op.arg;
             return true;
         }
+        case 'N': { // wide And: the result always fits
+            if (WB >= 64) {
+                return false;
+            }
+            ref::Big t((u128)(r.word(0, 64) & op.arg));
+            r = t;
+            *x.p &= (uint64_t)op.arg;
+            return true;
+        }
         case '&': {
             ref::Big t((u128)(r.word(0, WB) & (uint64_t)w));
             r = t;
@@ -264,11 +271,11 @@ static bool apply(Inst<W, Width> &x, ref::Big &r, const Op &op, std::string &err
             return true;
         }
         case 'M': {
-            B c(Memory::Move(*x.p));
+            B c(std::move(*x.p));
             if (!x.p->IsZero() || x.p->Index() != 0) {
                 err = "moved-from BigInt is not zero";
             }
-            *x.p = Memory::Move(c);
+            *x.p = std::move(c);
             if (!c.IsZero() || c.Index() != 0) {
                 err = "moved-from BigInt is not zero";
             }
@@ -281,7 +288,7 @@ static bool apply(Inst<W, Width> &x, ref::Big &r, const Op &op, std::string &err
 template <typename W>
 static std::vector<uint64_t> operands() {
     constexpr unsigned wb = sizeof(W) * 8;
-    const uint64_t     all = wb == 64 ? ~0ULL : ((1ULL << wb) - 1);
+    const uint64_t     all = (~0ULL) >> (64 - wb);
     std::vector<uint64_t> v = {0, 1, 2, 3, 5, 10, all, all - 1, 1ULL << (wb - 1), (1ULL << (wb - 1)) + 1, (1ULL << (wb - 1)) - 1,
                                1ULL << (wb / 2), (1ULL << (wb / 2)) + 1, (1ULL << (wb / 2)) - 1, (all / 3) | (1ULL << (wb - 1)) | 1,
                                (all / 5) * 4 + 1, all - 0xF};
@@ -319,6 +326,7 @@ static std::vector<Op> alphabet() {
             ops.push_back({'A', o});
             ops.push_back({'S', o});
             ops.push_back({'O', o});
+            ops.push_back({'N', o});
         }
     }
     ops.push_back({'C', 7});
@@ -326,143 +334,66 @@ static std::vector<Op> alphabet() {
     return ops;
 }
 
-// breadth-first search to `depth` over the alphabet; canonical state = (words, index)
-template <typename W, SizeT32 Width>
-static void bfs(int depth, vx::Ctx &ctx, const char *name) {
-    using I  = Inst<W, Width>;
-    auto ops = alphabet<W, Width>();
-    struct Node {
-        std::vector<uint16_t> hist;
-    };
-    std::unordered_set<std::string> seen;
-    std::deque<Node>                frontier;
-    {
-        I x;
-        seen.insert(x.key());
-        frontier.push_back({});
+// System for the seqx engine: one BigInt instance + the reference value.
+template <typename W, SizeT32 Width, bool Full>
+struct BSys {
+    using I = Inst<W, Width>;
+    I        x;
+    ref::Big r;
+    static const std::vector<Op> &ops() {
+        static std::vector<Op> o = [] {
+            if (!Full) {
+                return alphabet<W, Width>();
+            }
+            // complete alphabet of the 8-bit instantiation: every operand, every shift, wide operands on a stride
+            std::vector<Op> v;
+            for (char k : {'=', '+', '-', '*', '/', '|', '&'}) {
+                for (unsigned a = 0; a < 256; a++) {
+                    v.push_back({k, a});
+                }
+            }
+            for (unsigned sft = 0; sft < 20; sft++) {
+                v.push_back({'<', sft});
+                v.push_back({'>', sft});
+            }
+            for (char k : {'W', 'A', 'S', 'O', 'N'}) {
+                for (unsigned a = 0; a < 65536; a += 251) {
+                    v.push_back({k, a});
+                }
+                v.push_back({k, 65535});
+                v.push_back({k, 256});
+            }
+            v.push_back({'N', 0xFFFFFFFFFFFFFFFFULL});
+            v.push_back({'N', 0x10000ULL});
+            v.push_back({'N', 0xFF00FF00FF00ULL});
+            v.push_back({'C', 7});
+            v.push_back({'M', 0});
+            return v;
+        }();
+        return o;
     }
-    auto cmps = operands<W>();
-    for (int level = 0; level < depth; level++) {
-        std::deque<Node> next;
-        for (auto &node : frontier) {
-            if (!ctx.next()) {
-                // still has to be expanded to keep the enumeration deterministic - but without running checks twice:
-                // in resume/isolation mode the whole search is replayed; the cost is small.
-            }
-            // rebuild the state by replaying its history on a fresh object
-            I        base;
-            ref::Big rb;
-            {
-                std::string e;
-                for (uint16_t h : node.hist) {
-                    apply(base, rb, ops[h], e);
-                }
-            }
-            if (ctx.want_desc() && ctx.idx == ctx.only_idx) {
-                std::string d = std::string(name) + " history";
-                for (uint16_t h : node.hist) {
-                    d += " " + ops[h].str();
-                }
-                ctx.describe(d + " then every operation of the alphabet");
-            }
-            for (size_t oi = 0; oi < ops.size(); oi++) {
-                I           x(base);
-                ref::Big    r = rb;
-                std::string err;
-                if (!apply(x, r, ops[oi], err)) {
-                    continue;
-                }
-                ctx.acc.count("transitions");
-                if (err.empty()) {
-                    err = x.diff(r);
-                }
-                if (err.empty()) {
-                    err = x.cmp_diff(r, (W)cmps[oi % cmps.size()]);
-                }
+    static int         num_ops() { return (int)ops().size(); }
+    static std::string op_name(int i) { return ops()[(size_t)i].str(); }
+    bool               apply(int i, std::string &err) {
+        if (!::apply(x, r, ops()[(size_t)i], err)) {
+            return false;
+        }
+        if (err.empty()) {
+            err = x.diff(r);
+        }
+        if (err.empty()) {
+            static const std::vector<uint64_t> cm = operands<W>();
+            for (uint64_t c : cm) {
+                err = x.cmp_diff(r, (W)c);
                 if (!err.empty()) {
-                    std::string k = std::string(name) + " ops";
-                    for (uint16_t h : node.hist) {
-                        k += " " + ops[h].str();
-                    }
-                    k += " " + ops[oi].str();
-                    ctx.fail(k, err);
-                    continue; // do not extend a wrong state
-                }
-                std::string key = x.key();
-                if (seen.insert(key).second) {
-                    ctx.acc.count("states");
-                    Node n2 = node;
-                    n2.hist.push_back((uint16_t)oi);
-                    if (seen.size() % 50000 == 1) {
-                        std::string s = std::string(name) + " ops";
-                        for (uint16_t h : n2.hist) {
-                            s += " " + ops[h].str();
-                        }
-                        ctx.acc.sample(s);
-                    }
-                    next.push_back(std::move(n2));
-                }
-            }
-        }
-        frontier.swap(next);
-        ctx.acc.count((std::string("level_done_") + name).c_str());
-    }
-}
-
-// complete transition relation of BigInt<uint8,16>: every value x every operation with every 8-bit operand
-static void full_u8_16(int64_t chunk, vx::Ctx &ctx) {
-    using I = Inst<uint8_t, 16>;
-    for (unsigned v = (unsigned)chunk * 256; v < ((unsigned)chunk + 1) * 256; v++) {
-        if (!ctx.next()) {
-            continue;
-        }
-        if (ctx.want_desc()) {
-            ctx.describe("BigInt<uint8,16> value " + std::to_string(v) + " x every operation x every operand");
-        }
-        I        base;
-        ref::Big rb;
-        *base.p = (uint16_t)v; // wide set
-        rb      = ref::Big((u128)v);
-        {
-            std::string e = base.diff(rb);
-            if (!e.empty()) {
-                ctx.fail("u8x16 set " + std::to_string(v), e);
-                continue;
-            }
-        }
-        ctx.acc.count("states");
-        for (unsigned c = 0; c < 256; c++) {
-            std::string e = base.cmp_diff(rb, (uint8_t)c);
-            if (!e.empty()) {
-                ctx.fail("u8x16 value " + std::to_string(v) + " compare " + std::to_string(c), e);
-                break;
-            }
-        }
-        for (char k : {'=', '+', '-', '*', '/', '|', '&', '<', '>', 'W', 'A', 'S', 'O', 'C', 'M'}) {
-            unsigned lim = (k == '<' || k == '>') ? 20 : ((k == 'W' || k == 'A' || k == 'S' || k == 'O') ? 65536 : 256);
-            unsigned step = (lim == 65536) ? 251 : 1; // wide operands: a stride that hits every low byte and many high bytes
-            for (unsigned a = 0; a < lim; a += step) {
-                Op          op{k, a};
-                I           x(base);
-                ref::Big    r = rb;
-                std::string err;
-                if (!apply(x, r, op, err)) {
-                    continue;
-                }
-                ctx.acc.count("transitions");
-                if (err.empty()) {
-                    err = x.diff(r);
-                }
-                if (!err.empty()) {
-                    ctx.fail("u8x16 value " + std::to_string(v) + " op " + op.str(), err);
-                }
-                if (k == 'C' || k == 'M') {
                     break;
                 }
             }
         }
+        return true;
     }
-}
+    std::string key() { return x.key(); }
+};
 
 // DoubleSize helpers ---------------------------------------------------------------------------------------
 template <typename W>
@@ -494,7 +425,7 @@ static void ds_mul(W a, W b, vx::Ctx &ctx, const char *nm) {
 template <typename W>
 static std::vector<W> lattice() {
     constexpr unsigned wb  = sizeof(W) * 8;
-    const uint64_t     all = wb == 64 ? ~0ULL : ((1ULL << wb) - 1);
+    const uint64_t     all = (~0ULL) >> (64 - wb);
     std::vector<W>     v;
     for (uint64_t x : operands<W>()) {
         v.push_back((W)x);
@@ -514,42 +445,40 @@ int main(int argc, char **argv) {
     return vx::standard_main(argc, argv, [](const vx::Args &a) {
         vx::Plan   plan;
         const bool th = a.thorough();
-        const int  d1 = atoi(a.get("depth", th ? "4" : "3").c_str());
+        const int  d1 = atoi(a.get("depth", th ? "5" : "4").c_str());
+        const int  u8depth = atoi(a.get("u8depth", "-1").c_str());
         const int  dspan = atoi(a.get("dspan", th ? "65536" : "4096").c_str());
         plan.engine = "seqx";
-        plan.rule = "BigInt<uint8,16>: all 65536 values x {=,+=,-=,*=,/=,|=,&= with all 256 operands; shifts 0..19; wide set/add/sub/or; "
-                    "copy; move; 256 comparisons} (complete transition relation: with the invariant checked on every successor this is a "
-                    "fixed point); BigInt<uint8,24>,<uint8,32>,<uint16,64>,<uint32,128>,<uint64,128>,<uint64,256>,<uint64,2048>: "
+        plan.rule = "BigInt<uint8,16>: breadth-first search to the FIXED POINT over every reachable internal state (words+index) with the "
+                    "complete alphabet {=,+=,-=,*=,/=,|=,&= with all 256 operands; shifts 0..19; wide set/add/sub/or; copy; move}; BigInt<uint8,24>,<uint8,32>,<uint16,64>,<uint32,128>,<uint64,128>,<uint64,256>,<uint64,2048>: "
                     "breadth-first over operation sequences to depth " + std::to_string(d1) + " over boundary operands/shifts with canonical "
                     "state dedup; DoubleSize<uint8,8> exhaustive, <uint16>/<uint32>/<uint64> boundary lattices, all divisors in "
                     "[2^63, 2^63+" + std::to_string(dspan) + ") and the top " + std::to_string(dspan) + "; reference: schoolbook bigint / "
                     "unsigned __int128; results that do not fit the width are skipped";
         plan.bounds = "depth=" + std::to_string(d1) + " dspan=" + std::to_string(dspan);
-        {
-            vx::Stage st;
-            st.name   = "u8x16-complete";
-            st.chunks = 256;
-            st.fn     = full_u8_16;
-            plan.stages.push_back(st);
-        }
-        {
-            vx::Stage st;
-            st.name   = "bfs";
-            st.chunks = 7;
-            st.hang_s = 600;
-            st.fn     = [d1](int64_t chunk, vx::Ctx &ctx) {
-                switch (chunk) {
-                    case 0: bfs<uint8_t, 24>(d1 + 1, ctx, "BigInt<uint8,24>"); break;
-                    case 1: bfs<uint8_t, 32>(d1, ctx, "BigInt<uint8,32>"); break;
-                    case 2: bfs<uint16_t, 64>(d1, ctx, "BigInt<uint16,64>"); break;
-                    case 3: bfs<uint32_t, 128>(d1, ctx, "BigInt<uint32,128>"); break;
-                    case 4: bfs<uint64_t, 128>(d1, ctx, "BigInt<uint64,128>"); break;
-                    case 5: bfs<uint64_t, 256>(d1, ctx, "BigInt<uint64,256>"); break;
-                    case 6: bfs<uint64_t, 2048>(d1 - 1, ctx, "BigInt<uint64,2048>"); break;
-                }
-            };
-            plan.stages.push_back(st);
-        }
+        static seqx::Search<BSys<uint8_t, 16, true>>     s_u8_16;
+        static seqx::Search<BSys<uint8_t, 24, false>>    s_u8_24;
+        static seqx::Search<BSys<uint8_t, 32, false>>    s_u8_32;
+        static seqx::Search<BSys<uint16_t, 64, false>>   s_u16_64;
+        static seqx::Search<BSys<uint32_t, 128, false>>  s_u32_128;
+        static seqx::Search<BSys<uint64_t, 128, false>>  s_u64_128;
+        static seqx::Search<BSys<uint64_t, 256, false>>  s_u64_256;
+        static seqx::Search<BSys<uint64_t, 2048, false>> s_u64_2048;
+        auto add = [&](auto &srch, const char *nm, int depth, size_t per_chunk) {
+            srch.name        = nm;
+            srch.max_depth   = depth;
+            srch.per_chunk   = per_chunk;
+            srch.stage_index = (int)plan.stages.size();
+            plan.stages.push_back(srch.stage());
+        };
+        add(s_u8_16, "BigInt<uint8,16>", u8depth, 64); // -1: to the fixed point
+        add(s_u8_24, "BigInt<uint8,24>", d1 + 1, 32);
+        add(s_u8_32, "BigInt<uint8,32>", d1, 32);
+        add(s_u16_64, "BigInt<uint16,64>", d1, 32);
+        add(s_u32_128, "BigInt<uint32,128>", d1, 32);
+        add(s_u64_128, "BigInt<uint64,128>", d1, 32);
+        add(s_u64_256, "BigInt<uint64,256>", d1, 32);
+        add(s_u64_2048, "BigInt<uint64,2048>", d1 - 1, 32);
         {
             vx::Stage st;
             st.name   = "doublesize-u8-exhaustive";
@@ -658,9 +587,14 @@ int main(int argc, char **argv) {
             plan.stages.push_back(st);
         }
         plan.evals_counter = "transitions";
-        plan.finish = [](vx::Part &p) {
+        plan.finish = [u8depth](vx::Part &p) {
             p.evaluations += p.acc.counters["evals"];
             p.distinct_extra = p.acc.counters["states"];
+            p.bounds += " | " + s_u8_16.summary() + " | " + s_u8_24.summary() + " | " + s_u8_32.summary() + " | " + s_u16_64.summary() +
+                        " | " + s_u32_128.summary() + " | " + s_u64_128.summary() + " | " + s_u64_256.summary() + " | " + s_u64_2048.summary();
+            if (u8depth < 0 && !s_u8_16.frontier.empty() && p.exhaustive) {
+                p.exhaustive = false;
+            }
         };
         plan.assumptions = {"transitions whose exact result does not fit the declared width are skipped (property scope)",
                             "reference: ref/bigref.hpp schoolbook arithmetic and unsigned __int128",
